@@ -118,6 +118,7 @@ func runC02(p *engine.Prog, r *engine.Report) {
 	r.Min("R2.7-fresh-translation", 1)
 	r.Min("R2.8-param-labels", 1)
 	r.Min("R2.9-request-url", 1)
+	r.Min("R2.10-scheme-only-for-default-port", 1)
 	checkPopulate(p, r)
 	checkFreshTranslation(p, r)
 	checkParamFilter(p, r)
